@@ -291,6 +291,56 @@ fn check(case: &Case, run: &Run) -> Vec<Finding> {
     out
 }
 
+/// The localization adapter lives as long as the application and is shared by all connections: one
+/// instance is asked a long random sequence of (locale, message) questions - the same locale for
+/// different messages, the same message for different locales, in any order - and every answer is
+/// compared with the independent fall-back oracle. Whatever the adapter remembers between calls
+/// is part of what is observed.
+fn adapter_histories(cli: &Cli, report: &mut Report) {
+    use passage_adapters::localization::LocalizationAdapter;
+    let n = cli.scaled(cli.tier.pick(40, 600));
+    let items: Vec<u64> = (0..n).collect();
+    let results = par_map(items, cli.threads(), |_, i| {
+        let mut rng = Rng::stream(cli.seed, 39_000 + i);
+        let upper = rng.chance(1, 3);
+        let (default_locale, messages) = table(&mut rng, upper);
+        let map = messages.iter().map(|(loc, msgs)| (loc.clone(), msgs.iter().cloned().collect())).collect();
+        let adapter = passage_adapters::FixedLocalizationAdapter::new(default_locale.clone(), map);
+        let rt = tokio::runtime::Builder::new_current_thread().build().expect("runtime");
+        let mut calls = 0u64;
+        let mut finding: Option<(String, String, Value)> = None;
+        let mut asked: Vec<Value> = vec![];
+        for step in 0..80 {
+            let locale = if rng.chance(1, 10) { None } else { Some(styled(*rng.pick(LOCALES), upper)) };
+            let key = *rng.pick(&["disconnect_no_target", "disconnect_timeout", "disconnect_no_target", "locale", "no_such_message"]);
+            let got = rt.block_on(adapter.localize(locale.as_deref(), key, &[]));
+            calls += 1;
+            let want = expected_text(&default_locale, &messages, locale.as_deref().unwrap_or(&default_locale), key);
+            asked.push(json!([locale, key]));
+            let ok = match &got {
+                Ok(text) => text_value(text) == text_value(&want),
+                Err(_) => false,
+            };
+            if !ok && finding.is_none() {
+                let earlier_same_locale = asked[..step].iter().any(|a| a[0] == json!(locale));
+                finding = Some((
+                    format!("shared-localization-adapter/{}", if earlier_same_locale { "answer-depends-on-earlier-questions" } else { "wrong-answer" }),
+                    format!("question {step} ({locale:?}, {key}) on a long-lived localization adapter was answered {got:?}, the table says {want:?}"),
+                    json!({"default_locale": default_locale, "messages": messages, "questions_so_far": asked.clone(), "got": format!("{got:?}"), "expected": want}),
+                ));
+            }
+        }
+        (calls, finding)
+    });
+    for (calls, finding) in results {
+        report.eval(Some("shared-localization-adapter"));
+        report.count("questions put to long-lived localization adapters and compared with the table", calls);
+        if let Some((sig, what, w)) = finding {
+            report.violation(&sig, &what, w);
+        }
+    }
+}
+
 pub fn run_prop(cli: &Cli) -> i32 {
     let mut report = Report::new(
         cli,
@@ -317,5 +367,6 @@ pub fn run_prop(cli: &Cli) -> i32 {
             report.violation(&fi.signature, &fi.what, w);
         }
     }
+    adapter_histories(cli, &mut report);
     report.finish()
 }
